@@ -595,22 +595,22 @@ func C11(p *Prog, r *Run) {
 			tf := NewTermer(fn)
 			lk := newC11Lookup(fn, tf, nw)
 			okE := false
-			for _, b := range fn.Blocks {
-				if ret, ok := b.Instrs[len(b.Instrs)-1].(*ssa.Return); ok {
-					isEmpty := false
-					if mi, ok := ret.Results[0].(*ssa.MakeInterface); ok {
-						if c, ok := mi.X.(*ssa.Const); ok {
-							if nt, ok := c.Type().(*types.Named); ok && nt.Obj().Pkg() != nil && nt.Obj().Pkg().Path() == "gonum.org/v1/gonum/graph" {
-								isEmpty = true // the constant graph.Empty
-							}
+			// one result per return instruction, or per edge entering a return block that several results share
+			// (the body moved into a new helper and inlined again: robust_c11.go, c11Results)
+			for _, res := range c11Results(fn, 0) {
+				isEmpty := false
+				if mi, ok := res.v.(*ssa.MakeInterface); ok {
+					if c, ok := mi.X.(*ssa.Const); ok {
+						if nt, ok := c.Type().(*types.Named); ok && nt.Obj().Pkg() != nil && nt.Obj().Pkg().Path() == "gonum.org/v1/gonum/graph" {
+							isEmpty = true // the constant graph.Empty
 						}
 					}
-					if isEmpty {
-						for _, gd := range Guards(b) {
-							// the lookup found nothing: `node == nil` taken, or `node != nil` not taken, either operand order
-							if lk.absent(gd) {
-								okE = true
-							}
+				}
+				if isEmpty {
+					for _, gd := range res.conds {
+						// the lookup found nothing: `node == nil` taken, or `node != nil` not taken, either operand order
+						if lk.absent(gd) {
+							okE = true
 						}
 					}
 				}
